@@ -291,6 +291,134 @@ def oaChatStreamV (fixed usage : Bool) (items : List (Item ChatMsg)) : List OaEv
 def oaCmplStreamV (fixed usage : Bool) (items : List (Item GenMsg)) : List OaEv :=
   if fixed then oaCmplStreamFixed usage items else oaCmplStream usage items
 
+
+/-! ### The handlers end to end: faults of the runner outside `Completion`, repaired variants
+
+    Besides `Completion` the handlers call the runner (`llm.LlamaServer`) at these points:
+    * the scheduler hands out the runner (`scheduleRunner`; load / `WaitUntilRunning` failures arrive
+      here as an error) — before anything is written, both handlers: 500 `{"error": msg}`;
+    * GenerateHandler, non-raw request that supplies `context`: `Detokenize(context)` — before
+      `Completion`: 500 (raw + context is rejected with 400 earlier and never reaches the runner);
+    * ChatHandler: `Tokenize` inside `chatPrompt` — only when the conversation has more than one
+      message (the last message is always kept without measuring it) — before `Completion`: 500;
+    * GenerateHandler, non-raw request, inside the callback on a done chunk:
+      `Tokenize(prompt + response)` for the `context` field — on failure the callback sends
+      `{"error": msg}` INSTEAD of the done message and returns.
+    A fault is "this method fails (with this message) whenever it is called during the request". -/
+
+inductive Fault where
+  | none
+  /-- the scheduler returns an error instead of a runner -/
+  | load (m : Bytes)
+  | detok (m : Bytes)
+  | tok (m : Bytes)
+deriving DecidableEq, Repr
+
+/-- GenerateHandler fails before `Completion` -/
+def Fault.genPre (hasCtx : Bool) : Fault → Option Bytes
+  | .load m => some m
+  | .detok m => if hasCtx then some m else Option.none
+  | _ => Option.none
+
+/-- ChatHandler fails before `Completion`; `hist` = the conversation has earlier messages -/
+def Fault.chatPre (hist : Bool) : Fault → Option Bytes
+  | .load m => some m
+  | .tok m => if hist then some m else Option.none
+  | _ => Option.none
+
+/-- the Tokenize call of GenerateHandler's done branch fails -/
+def Fault.ctxTok : Fault → Option Bytes
+  | .tok m => some m
+  | _ => Option.none
+
+/-- GenerateHandler's callback with a possibly failing Tokenize: channel items, in order -/
+def genCallbackT (tf : Option Bytes) (raw : Bool) (pl : Nat) : List Chunk → Bytes → List (Item GenMsg)
+  | [], _ => []
+  | c :: cs, sb =>
+    let sb' := sb ++ c.content
+    (match tf with
+      | some m => if c.done && !raw then Item.err m else Item.msg (genMsgOf raw pl sb' c)
+      | Option.none => Item.msg (genMsgOf raw pl sb' c)) :: genCallbackT tf raw pl cs sb'
+
+/-- which proposed repairs the modelled tree contains -/
+structure Variant where
+  /-- C17-F17ab.patch, streaming tool path (F17a) -/
+  toolsStream : Bool
+  /-- C17-F17ab.patch / C17-F17b.patch: the non-stream reply numbers its calls (F17b) -/
+  toolsIndex : Bool
+  /-- C17-F17c.patch (in /repo since 499276761) -/
+  oaErr : Bool
+  /-- C17-F17d.patch: a run that ends without a done chunk is reported as an error -/
+  incomplete : Bool
+deriving DecidableEq, Repr
+
+/-- `errIncompleteResponse` of C17-F17d.patch -/
+def sIncomplete : Bytes := [109, 111, 100, 101, 108, 32, 114, 117, 110, 110, 101, 114, 32, 115, 116, 111, 112, 112, 101, 100, 32, 119, 105, 116, 104, 111, 117, 116, 32, 99, 111, 109, 112, 108, 101, 116, 105, 110, 103, 32, 116, 104, 101, 32, 114, 101, 115, 112, 111, 110, 115, 101]
+
+def sawDone (cs : List Chunk) : Bool := cs.any (·.done)
+
+/-- what the goroutine sends after `Completion` returned -/
+def endItemsV {α : Type} (fixD : Bool) (cs : List Chunk) : End → List (Item α)
+  | .ok => if fixD && !sawDone cs then [.err sIncomplete] else []
+  | .err m => [.err m]
+
+def genItemsH (v : Variant) (f : Fault) (raw : Bool) (pl : Nat) (cs : List Chunk) (e : End) : List (Item GenMsg) :=
+  genCallbackT f.ctxTok raw pl cs [] ++ endItemsV v.incomplete cs e
+
+/-- /api/generate, `stream != false`: `.error m` = 500 `{"error": m}` before any streaming,
+    `.ok items` = status 200 and one NDJSON line per item -/
+def generateStreamH (v : Variant) (f : Fault) (raw hasCtx : Bool) (pl : Nat) (cs : List Chunk) (e : End) :
+    Except Bytes (List (Item GenMsg)) :=
+  match f.genPre hasCtx with
+  | some m => .error m
+  | Option.none => .ok (genItemsH v f raw pl cs e)
+
+/-- /api/generate, `stream == false` -/
+def generateOnceH (v : Variant) (f : Fault) (raw hasCtx : Bool) (pl : Nat) (cs : List Chunk) (e : End) :
+    Except Bytes GenMsg :=
+  match f.genPre hasCtx with
+  | some m => .error m
+  | Option.none =>
+    match onceLoop (·.resp) (genItemsH v f raw pl cs e) [] default with
+    | .ok (sb, r) => .ok { r with resp := sb }
+    | .error m => .error m
+
+def chatItemsH (v : Variant) (parse : Bytes → List Call) (buffered : Bool) (cs : List Chunk) (e : End) :
+    List (Item ChatMsg) :=
+  (if v.toolsStream && buffered then chatCallbackFixed parse cs [] 0 else chatCallback parse buffered cs [] 0).map .msg
+    ++ endItemsV v.incomplete cs e
+
+/-- /api/chat, `stream != false` -/
+def chatStreamH (v : Variant) (f : Fault) (parse : Bytes → List Call) (tools hist : Bool) (cs : List Chunk) (e : End) :
+    Except Bytes (List (Item ChatMsg)) :=
+  match f.chatPre hist with
+  | some m => .error m
+  | Option.none => .ok (chatItemsH v parse tools cs e)
+
+/-- /api/chat, `stream == false` -/
+def chatOnceH (v : Variant) (f : Fault) (parse : Bytes → List Call) (tools hist : Bool) (cs : List Chunk) (e : End) :
+    Except Bytes ChatMsg :=
+  match f.chatPre hist with
+  | some m => .error m
+  | Option.none =>
+    match onceLoop (·.content) (chatItemsH v parse false cs e) [] default with
+    | .ok (sb, r) =>
+      let r := { r with content := sb }
+      if tools && !(parse sb).isEmpty then
+        .ok { r with calls := if v.toolsIndex then setIdx 0 (parse sb) else parse sb, content := [] }
+      else .ok r
+    | .error m => .error m
+
+/-- /v1/chat/completions and /v1/completions in stream mode on top of the native stream: a native
+    500 becomes a 500 error object (`writeError`) -/
+def oaChatStreamH (v : Variant) (usage : Bool) : Except Bytes (List (Item ChatMsg)) → Except Bytes (List OaEv)
+  | .error m => .error m
+  | .ok items => .ok (oaChatStreamV v.oaErr usage items)
+
+def oaCmplStreamH (v : Variant) (usage : Bool) : Except Bytes (List (Item GenMsg)) → Except Bytes (List OaEv)
+  | .error m => .error m
+  | .ok items => .ok (oaCmplStreamV v.oaErr usage items)
+
 /-! ### `api.Client.stream`: messages delivered to the callback, and the returned error -/
 
 def clientView {α : Type} [Inhabited α] : List (Item α) → List α × Option Bytes
